@@ -83,6 +83,8 @@ package reporting
 // ---- C17 / C08: what is emitted ---------------------------------------------------------------------------------
 // A diagnostic is emitted for a violation iff the suppression set does not cover (code, position); the code looked
 // up is the code shown (both are violation.GetCode()), the position is the violation's position.
+// the run of blanks in front of the caret: one character per column before column n, a tab where the displayed line has one
+//@ pure func padTo(s string, n int) rec string = n <= 1 ? "" : padTo(s, n-1) + ((n-2 < len(s) && s[n-2] == '\t') ? "\t" : " ")
 //@ func Reporter.formatPrettyError
 //@   props C17 C19 C10
 //@   requires reporterOK(r) && violation != nil
@@ -94,6 +96,12 @@ package reporting
 //@   loop 1 invariant strings.HasPrefix(builder.$content, hdr)
 //@   loop 2 invariant strings.HasPrefix(builder.$content, hdr)
 //@   loop 3 invariant $v >= 1 && strings.HasPrefix(builder.$content, hdr)
+// C19: the excerpt is cut from the line numbered like the diagnostic, with the reported column; the caret column is computed
+// from the same source line, and the caret is moved there with the tabs of the line that is displayed above it
+//@   at call Reporter.readSourceLines#1 assert $arg0 == r.pass.Fset.Position(violation.GetPos()).Filename && $arg1 == r.pass.Fset.Position(violation.GetPos()).Line
+//@   at call truncateString#1 assert $arg0 == lines.content[$i2] && $arg1 == MaxLineLength && $arg2 == r.pass.Fset.Position(violation.GetPos()).Column
+//@   at call calculateDisplayColumn#1 assert $arg0 == lines.content[$i2] && $arg1 == r.pass.Fset.Position(violation.GetPos()).Column && $arg2 == MaxLineLength && lines.lineNumbers[$i2] == r.pass.Fset.Position(violation.GetPos()).Line
+//@   loop 3 invariant builder.$content == atentry(builder.$content) + padTo($ret("truncateString#1"), $v)
 
 //@ func Reporter.ReportViolation
 //@   props C17 C08 C07 C10
